@@ -41,7 +41,8 @@ def tables(prop, tier, seed, ctx):
 STRESS_SCENARIOS = {
     # property -> (quick scenarios, quick seconds for the hammer, thorough scenarios, thorough seconds)
     "C01": (["late", "blocking"], 0, ["late", "blocking", "hammer"], 60),
-    "C02": ([], 0, ["hammer"], 60),
+    "C02": (["blocking"], 0, ["blocking", "hammer"], 60),
+    "C12": (["ids"], 0, ["ids"], 0),
     "C03": (["askjoin", "hammer", "idlewin", "blocking"], 6, ["askjoin", "hammer", "idlewin", "blocking"], 180),
     "C06": ([], 0, ["hammer"], 60),
     "C08": (["idlewin"], 0, ["idlewin"], 0),
